@@ -33,6 +33,7 @@ Inductive op :=
 | OpMoveAssign (d s : nat)
 | OpSwap (a b : nat)
 | OpJunk (b : Z)
+| OpFailAt (k : nat)                   (* the (k+1)-th allocation from now on throws *)
 | OpRefAssign (d : nat) (i : Z) (s : nat) (j : Z) (mv : bool)   (* d[i] = s[j] (copy / move) *)
 | OpRefSwap (a : nat) (i : Z) (b : nat) (j : Z)                 (* swap(a[i], b[j]) *)
 | OpWrite (s : nat) (i : Z) (k : nat) (o : Z) (bs : list Z)     (* object o of field k of s[i] := bytes *)
@@ -71,6 +72,8 @@ Inductive obs :=
 | OElem (e : nat) (aid : Z) (bid : nat) (units : Z) (fields : list (Z * list (list Z)))
 | OENull (e : nat)
 | OEGone (e : nat)
+| OAFail (aid unit n : Z)                          (* allocate(n) of allocator aid threw *)
+| OThrow
 | ONull (s : nat) (size : Z)                       (* vector without memory: size() only *)
 | OVec (s : nat) (size cap consumption aid : Z) (bid : nat) (dbeg dend : Z) (fixed : list Z)
        (elems : list oelem)
@@ -81,6 +84,7 @@ Record world := {
   w_elems : list (option elem);
   w_nb : nat;          (* next block id *)
   w_junk : Z;
+  w_fail : option nat; (* Some k: the (k+1)-th allocation from now on throws *)
   w_out : list obs     (* reversed *)
 }.
 
@@ -89,18 +93,19 @@ Definition getv (w : world) (s : nat) : vec :=
 Definition hasv (w : world) (s : nat) : bool :=
   match nth s (w_vecs w) None with Some _ => true | None => false end.
 Definition setv (w : world) (s : nat) (v : option vec) (evs : list ev) (nb : nat) : world :=
-  {| w_vecs := upd s v (w_vecs w); w_elems := w_elems w; w_nb := nb; w_junk := w_junk w;
+  {| w_vecs := upd s v (w_vecs w); w_elems := w_elems w; w_nb := nb; w_junk := w_junk w; w_fail := w_fail w;
      w_out := rev (map OEv evs) ++ w_out w |}.
 Definition emit (w : world) (o : list obs) : world :=
-  {| w_vecs := w_vecs w; w_elems := w_elems w; w_nb := w_nb w; w_junk := w_junk w; w_out := rev o ++ w_out w |}.
+  {| w_vecs := w_vecs w; w_elems := w_elems w; w_nb := w_nb w; w_junk := w_junk w; w_fail := w_fail w;
+     w_out := rev o ++ w_out w |}.
 Definition set_junk (w : world) (b : Z) : world :=
-  {| w_vecs := w_vecs w; w_elems := w_elems w; w_nb := w_nb w; w_junk := b; w_out := w_out w |}.
+  {| w_vecs := w_vecs w; w_elems := w_elems w; w_nb := w_nb w; w_junk := b; w_fail := w_fail w; w_out := w_out w |}.
 
 Definition elem0 : elem := {| e_bid := None; e_units := 0; e_aid := 0; e_mem := mfill 0; e_fl := [] |}.
 Definition gete (w : world) (s : nat) : elem :=
   match nth s (w_elems w) None with Some e => e | None => elem0 end.
 Definition sete (w : world) (s : nat) (e : option elem) (evs : list ev) (nb : nat) : world :=
-  {| w_vecs := w_vecs w; w_elems := upd s e (w_elems w); w_nb := nb; w_junk := w_junk w;
+  {| w_vecs := w_vecs w; w_elems := upd s e (w_elems w); w_nb := nb; w_junk := w_junk w; w_fail := w_fail w;
      w_out := rev (map OEv evs) ++ w_out w |}.
 Definition obs_el (L : list param) (s : nat) (w : world) : obs :=
   match nth s (w_elems w) None with
@@ -299,6 +304,9 @@ Definition step (K : akind) (L : list param) (w : world) (o : op) : world :=
         let w1 := setv (setv w a (Some va) [] nb) b (Some vb) [] nb in
         emit w1 [obs_vec L a w1; obs_vec L b w1]
   | OpJunk b => set_junk w b
+  | OpFailAt k =>
+      {| w_vecs := w_vecs w; w_elems := w_elems w; w_nb := w_nb w; w_junk := w_junk w; w_fail := Some k;
+         w_out := w_out w |}
   | OpRefAssign d i s j mv =>
       let same := Nat.eqb d s in
       let '(vd, vs, e) := ref_assign mv L same (getv w d) i (getv w s) j in
@@ -395,13 +403,46 @@ Definition step (K : akind) (L : list param) (w : world) (o : op) : world :=
   | OpObserve s => emit w [obs_vec L s w]
   end.
 
+(* ---------- allocation failure ----------
+   Every operation of the library that allocates does so BEFORE it changes anything (grow:
+   "allocate memory first because it might throw"; construction: members not yet visible;
+   copy / move assignment: new block and table first).  A throwing allocation therefore
+   leaves every operand as it was; the blocks the operation had already obtained are
+   returned by the destructors of its locals / members during unwinding. *)
+Definition is_alloc (o : obs) : bool := match o with OEv (EAlloc _ _ _ _) => true | _ => false end.
+Definition dealloc_of (o : obs) : list obs :=
+  match o with OEv (EAlloc a u n b) => [OEv (EDealloc a u n b)] | _ => [] end.
+Definition afail_of (o : obs) : list obs :=
+  match o with OEv (EAlloc a u n _) => [OAFail a u n] | _ => [] end.
+Definition obs_all (L : list param) (w : world) : list obs :=
+  flat_map (fun s => if hasv w s then [obs_vec L s w] else []) (seq 0 4)
+  ++ flat_map (fun s => match nth s (w_elems w) None with Some _ => [obs_el L s w] | None => [] end) (seq 0 4).
+
+Definition step_f (K : akind) (L : list param) (w : world) (o : op) : world :=
+  match w_fail w with
+  | None => step K L w o
+  | Some k =>
+      let w1 := step K L w o in
+      (* what this step emitted, in order *)
+      let new := rev (firstn (length (w_out w1) - length (w_out w)) (w_out w1)) in
+      let allocs := filter is_alloc new in
+      if Nat.ltb k (length allocs) then
+        let done := firstn k allocs in
+        let w2 := {| w_vecs := w_vecs w; w_elems := w_elems w; w_nb := (w_nb w + k)%nat; w_junk := w_junk w;
+                     w_fail := None; w_out := w_out w |} in
+        emit w2 (done ++ afail_of (nth k allocs OThrow) ++ flat_map dealloc_of (rev done) ++ [OThrow] ++ obs_all L w2)
+      else
+        {| w_vecs := w_vecs w1; w_elems := w_elems w1; w_nb := w_nb w1; w_junk := w_junk w1;
+           w_fail := Some (k - length allocs)%nat; w_out := w_out w1 |}
+  end.
+
 Definition world0 : world :=
-  {| w_vecs := repeat None 4; w_elems := repeat None 4; w_nb := O; w_junk := 170; w_out := [] |}.
+  {| w_vecs := repeat None 4; w_elems := repeat None 4; w_nb := O; w_junk := 170; w_fail := None; w_out := [] |}.
 
 Fixpoint run_from (K : akind) (L : list param) (w : world) (ops : list op) (n : nat) : world :=
   match ops with
   | [] => w
-  | o :: ops' => run_from K L (step K L (emit w [OStep n]) o) ops' (S n)
+  | o :: ops' => run_from K L (step_f K L (emit w [OStep n]) o) ops' (S n)
   end.
 
 Definition run (K : akind) (L : list param) (ops : list op) : list obs :=
